@@ -319,6 +319,13 @@ func c12JudgeRound(ctx *vfCtx, round c12Round, ri int, db *c12DBStub, stubs []*c
 		return false
 	}
 	nowHi := time.Now().UnixMilli() + c12Slack
+	// the messages handed over are the caller's: they read as before
+	for i, r := range round.Requests {
+		if string(reqs[i].Message) != string(r.Message) {
+			ctx.Fail("C12/message-overwritten", "round %d request %d: VerifyJSONs changed the message it was given: %q now reads %q", ri, i, r.Message, reqs[i].Message)
+			return false
+		}
+	}
 
 	// ---- what was supplied during this call (transcript) ----
 	supplied := map[c12PK][]c12Supplied{}
@@ -891,6 +898,9 @@ func c12GenMessage(t *rapid.T, w c12World, server string) ([]byte, string, []str
 
 func c12GenRequests(t *rapid.T, w c12World, held []c12Key) []c12Req {
 	n := rapid.IntRange(1, 6).Draw(t, "nreq")
+	if rapid.IntRange(0, 39).Draw(t, "bigBatch") == 0 {
+		n = rapid.SampledFrom([]int{63, 64, 65, 70, 130}).Draw(t, "nreqBig") // around the sizes of worker pools and small fixed tables
+	}
 	var out []c12Req
 	for i := 0; i < n; i++ {
 		server := rapid.SampledFrom(w.servers).Draw(t, "reqServer")
